@@ -1,6 +1,7 @@
 package main
 
 import (
+	"errors"
 	"fmt"
 	"math/rand"
 	"net/http"
@@ -8,6 +9,7 @@ import (
 	"net/url"
 	"strconv"
 	"strings"
+	"sync/atomic"
 	"time"
 
 	"github.com/vulcand/oxy/v2/memmetrics"
@@ -111,6 +113,9 @@ type flapMeter struct{ rng *rand.Rand }
 func (m *flapMeter) Rating() float64           { return []float64{0, 0, 0.3, 1, 0.3}[m.rng.Intn(5)] }
 func (m *flapMeter) Record(int, time.Duration) {}
 func (m *flapMeter) IsReady() bool             { return true }
+
+// meterFactoryFails makes the rebalancer's meter factory fail for the upsert in progress (the add is then refused).
+var meterFactoryFails atomic.Bool
 
 var _ = memmetrics.SplitRatios
 
@@ -233,9 +238,19 @@ func newRRSubject(cfg M, seed int64) *rrSubject {
 		if subject == "rba" {
 			mrng := rand.New(rand.NewSource(seed*31 + 7))
 			rbopts = append(rbopts, roundrobin.RebalancerBackoff(time.Second),
-				roundrobin.RebalancerMeter(func() (roundrobin.Meter, error) { return &flapMeter{rng: mrng}, nil }))
+				roundrobin.RebalancerMeter(func() (roundrobin.Meter, error) {
+					if meterFactoryFails.Load() {
+						return nil, errors.New("no meter for you")
+					}
+					return &flapMeter{rng: mrng}, nil
+				}))
 		} else {
-			rbopts = append(rbopts, roundrobin.RebalancerMeter(func() (roundrobin.Meter, error) { return neverReady{}, nil }))
+			rbopts = append(rbopts, roundrobin.RebalancerMeter(func() (roundrobin.Meter, error) {
+				if meterFactoryFails.Load() {
+					return nil, errors.New("no meter for you")
+				}
+				return neverReady{}, nil
+			}))
 		}
 		if s.sticky != nil {
 			rbopts = append(rbopts, roundrobin.RebalancerStickySession(s.sticky))
@@ -327,6 +342,18 @@ func runRR(sc Scenario, tr *Trace, seed int64) {
 			if _, bad := st["w2"]; bad { // a call with several options, the last of which is rejected
 				err := s.upsert(s.tab.url(k, v), w, num(st, "w2"))
 				tr.Emit(M{"e": "UpsertBad", "k": k, "v": v, "w": w, "err": err != nil, "members": s.members()})
+				continue
+			}
+			if boolOr(st, "meterfail", false) && s.rb != nil {
+				// the rebalancer cannot create a meter for the server: a NEW server is refused (an update needs no meter)
+				meterFactoryFails.Store(true)
+				err := s.upsert(s.tab.url(k, v), w)
+				meterFactoryFails.Store(false)
+				if err != nil {
+					tr.Emit(M{"e": "UpsertFail", "k": k, "v": v, "w": w, "err": true, "members": s.members()})
+					continue
+				}
+				tr.Emit(M{"e": "Upsert", "k": k, "v": v, "w": w, "err": false, "members": s.members()})
 				continue
 			}
 			err := s.upsert(s.tab.url(k, v), w)
@@ -425,10 +452,8 @@ func runRR(sc Scenario, tr *Trace, seed int64) {
 				if valid && src.by == "aesttl" {
 					exp := src.at.Add(stickyTTL)
 					now := verifhook.Now()
-					if now.After(exp) {
+					if now.After(exp) { // valid up to and including the instant its lifetime ends (as the pinned code reads it)
 						valid = false
-					} else if now.Equal(exp) {
-						ckfree = true
 					}
 				}
 				if valid && !ckfree {
